@@ -13,7 +13,7 @@ import (
 
 // suite mask (C17): real maskGo / maskAsm on buffers placed at a chosen alignment inside a
 // 64-byte aligned arena with 64 guard bytes on each side; optionally masked in consecutive pieces.
-//   fn=go|asm key=<8 hex, little-endian key bytes> data=<payload> align=<0..63> split=<a,b,..|->
+//   fn=go|asm|mask (mask = the dispatcher the connection code calls) key=<8 hex, little-endian key bytes> data=<payload> align=<0..63> split=<a,b,..|->
 
 func init() {
 	suites["mask"] = &Suite{Gen: genMask, Run: runMask}
@@ -92,7 +92,18 @@ func genMask(r *Rng, tier string, stat func(string)) []string {
 	for n := 1; n <= maxSplit; n++ {
 		for i := 0; i <= n; i++ {
 			add("go", n, r.Intn(64), fmt.Sprintf("%d,%d", i, n-i))
+			// the dispatcher the connection code calls (mask_asm.go / mask_go.go), empty pieces included
+			add("mask", n, r.Intn(64), fmt.Sprintf("%d,%d", i, n-i))
 		}
+	}
+	for n := 0; n <= 140; n++ {
+		add("mask", n, r.Intn(64), "-")
+	}
+	for c := 0; c < 120; c++ {
+		// pieces with empty ones in the middle, as a zero-length Read in the middle of a frame produces
+		n := 1 + r.Intn(300)
+		i := r.Intn(n + 1)
+		add("mask", n, r.Intn(64), fmt.Sprintf("%d,0,%d,0", i, n-i))
 	}
 	ns := 300
 	if tier == "thorough" {
@@ -102,7 +113,7 @@ func genMask(r *Rng, tier string, stat func(string)) []string {
 		n := 1 + r.Intn(600)
 		i := r.Intn(n + 1)
 		j := i + r.Intn(n-i+1)
-		add(fns[r.Intn(2)], n, r.Intn(64), fmt.Sprintf("%d,%d,%d", i, j-i, n-j))
+		add([]string{"go", "asm", "mask"}[r.Intn(3)], n, r.Intn(64), fmt.Sprintf("%d,%d,%d", i, j-i, n-j))
 	}
 	return out
 }
@@ -139,6 +150,8 @@ func runMask(kv map[string]string) string {
 		p := buf[pos : pos+l]
 		if kv["fn"] == "asm" {
 			key = websocket.VerifMaskAsm(p, key)
+		} else if kv["fn"] == "mask" {
+			key = websocket.VerifMask(p, key)
 		} else {
 			key = websocket.VerifMaskGo(p, key)
 		}
